@@ -237,6 +237,10 @@ def c11(run):
 
 def c09(run):
     run.sites = {"store", "panic"}
+    tlc, s0 = run_tlc_replay(run, "MC_Split_store", "MC_Split.tla",
+                             dict(spec="Spec", constants={"MaxLen": 6 if run.quick() else 7, "Mode": '"design"'},
+                                  invariants=["Structural", "StoreRoundTrip"]), "C09", workers=4, threads=1)
+    run.add(tlc, None)
     rounds = 60 if run.quick() else 400
     tlc, s = run_record_validate(run, "store", "store", "Trace_Store.tla", "C09", "store", rounds, shards=8)
     run.add(tlc, s)
